@@ -215,7 +215,25 @@ pub fn run_c04(ctx: &Ctx) {
     enumerate_seqs(ctx, "token-seqs", k, judge_c04_seq, "ref-accepts");
 }
 
+fn replay_fuzz_diff(case: &Value, prefix: &str) -> Judge {
+    let bytes = unhex(case.get("bytes").and_then(|b| b.as_str()).unwrap_or("")).ok_or_else(|| Fail::new("bad-replay", "bytes"))?;
+    match vcore::oracles::diff_core(&bytes) {
+        Ok(class) => {
+            println!("reference decoder: {class}");
+            Ok(())
+        }
+        Err(f) if f.sig.starts_with(prefix) => Err(f),
+        Err(f) => {
+            println!("INFO: this input violates another property: {} ({})", f.sig, f.msg.chars().take(200).collect::<String>());
+            Ok(())
+        }
+    }
+}
+
 pub fn replay_c04(ctx: &Ctx, sub: &str, case: &Value) -> Judge {
+    if sub.starts_with("fuzz-") {
+        return replay_fuzz_diff(case, "C04/");
+    }
     if sub == "token-seqs" {
         let seq: Vec<u8> = case.get("tokens").and_then(|t| t.as_array()).ok_or_else(|| Fail::new("bad-replay", "tokens"))?.iter().map(|x| x.as_u64().unwrap_or(0) as u8).collect();
         return judge_c04_seq(&seq).0;
@@ -453,7 +471,10 @@ pub fn run_c05(ctx: &Ctx) {
     ctx.extra("exhaustive_subdomain", json!(format!("all 2^(n-1) compositions of {} short messages (lengths {:?})", msgs.len(), msgs.iter().map(|m| m.len()).collect::<Vec<_>>())));
 }
 
-pub fn replay_c05(ctx: &Ctx, _sub: &str, case: &Value) -> Judge {
+pub fn replay_c05(ctx: &Ctx, sub: &str, case: &Value) -> Judge {
+    if sub.starts_with("fuzz-") {
+        return replay_fuzz_diff(case, "C05/");
+    }
     let bytes = unhex(case.get("bytes").and_then(|b| b.as_str()).unwrap_or("")).ok_or_else(|| Fail::new("bad-replay", "bytes"))?;
     let sched = Schedule::from_json(case.get("schedule").unwrap_or(&Value::Null)).ok_or_else(|| Fail::new("bad-replay", "schedule"))?;
     judge_c05_bytes(&bytes, &sched, &Probe { ctx, counting: false })
@@ -669,7 +690,10 @@ pub fn run_c06(ctx: &Ctx) {
     }
 }
 
-pub fn replay_c06(ctx: &Ctx, _sub: &str, case: &Value) -> Judge {
+pub fn replay_c06(ctx: &Ctx, sub: &str, case: &Value) -> Judge {
+    if sub.starts_with("fuzz-") {
+        return replay_fuzz_diff(case, "C06/");
+    }
     let w = wmsg_from_json(case.get("wire").ok_or_else(|| Fail::new("bad-replay", "wire"))?).ok_or_else(|| Fail::new("bad-replay", "wire tree"))?;
     let bytes = Arc::new(ref_encode(&w));
     let l = bytes.len() - w.payload.len();
